@@ -371,15 +371,30 @@ func c19Encoder(c *Ctx, p *Prog, pk *packages.Package, e lebCodec) {
 	vObj := info.ObjectOf(fd.Type.Params.List[0].Names[0])
 	dstObj := info.ObjectOf(fd.Type.Params.List[1].Names[0])
 	// the returned counter
+	// (returned after the loop, or from inside it when the last group has been written)
 	var lenObj types.Object
-	for _, s := range post {
-		if rs, ok := s.(*ast.ReturnStmt); ok && len(rs.Results) == 1 {
-			r := ast.Unparen(rs.Results[0])
-			if call, ok := r.(*ast.CallExpr); ok && len(call.Args) == 1 {
-				r = call.Args[0]
+	counterOf := func(n ast.Node) {
+		ast.Inspect(n, func(m ast.Node) bool {
+			if _, isLit := m.(*ast.FuncLit); isLit {
+				return false
 			}
-			lenObj = identObj(info, r)
-		}
+			if rs, ok := m.(*ast.ReturnStmt); ok && len(rs.Results) == 1 {
+				r := ast.Unparen(rs.Results[0])
+				if call, ok := r.(*ast.CallExpr); ok && len(call.Args) == 1 {
+					r = call.Args[0]
+				}
+				if o := identObj(info, r); o != nil {
+					lenObj = o
+				}
+			}
+			return true
+		})
+	}
+	for _, s := range post {
+		counterOf(s)
+	}
+	if lenObj == nil {
+		counterOf(loop.Body)
 	}
 	if lenObj == nil {
 		c.Undecided(rRes, e.Fn, loc, "the function does not return a counter variable")
@@ -399,8 +414,10 @@ func c19Encoder(c *Ctx, p *Prog, pk *packages.Package, e lebCodec) {
 		}
 		return true
 	})
-	c.Check(advances, rRes, e.Fn, loc, "returns the counter of emitted bytes; the buffer advances by one per emitted byte",
-		e.Fn+" does not advance the output buffer by one byte after each store (dst = dst[1:]): later groups overwrite or skip positions")
+	// Two ways of moving through the buffer: re-slicing (`dst = dst[1:]`, every store at index 0) or indexing with the
+	// byte counter (`dst[n] = c`). Which one holds is decided per evaluated iteration below (the counter is started at 2
+	// so that the two cannot be confused).
+	indexedByCounter := true
 
 	var bad, undecided []string
 	note := func(list *[]string, s string) {
@@ -435,6 +452,10 @@ func c19Encoder(c *Ctx, p *Prog, pk *packages.Package, e lebCodec) {
 			note(&undecided, "statements before the loop: "+o.Kind+" "+o.Why)
 			continue
 		}
+		if s0 := env.vars[lenObj]; !s0.OK || s0.I != 0 {
+			note(&bad, "the byte counter does not start at 0")
+		}
+		env.vars[lenObj] = fInt(2)
 		start := env.vars[lenObj]
 		out, done := it.run(loop.Body.List)
 		at := fmt.Sprintf("v = %d", v)
@@ -445,10 +466,13 @@ func c19Encoder(c *Ctx, p *Prog, pk *packages.Package, e lebCodec) {
 			note(&undecided, at+": "+out.Why+" ("+p.Pos(out.Pos)+")")
 			continue
 		}
-		more := !(done && out.Kind == "break")
-		if done && out.Kind != "break" && out.Kind != "fall" {
+		more := !(done && (out.Kind == "break" || out.Kind == "accept"))
+		if done && out.Kind != "break" && out.Kind != "fall" && out.Kind != "accept" {
 			note(&bad, at+": the iteration ends in "+out.Kind)
 			continue
+		}
+		if done && out.Kind == "accept" && (!out.RetVal.OK || out.RetVal.I != start.I+1) {
+			note(&bad, at+": the value returned from inside the loop is not the number of bytes written")
 		}
 		wantMore := uint64(v) > 127
 		next := int64(uint64(v) >> 7)
@@ -471,8 +495,11 @@ func c19Encoder(c *Ctx, p *Prog, pk *packages.Package, e lebCodec) {
 			note(&bad, fmt.Sprintf("%s: %d stores into the buffer in one iteration", at, len(stores)))
 		case !stores[0].Val.OK || !stores[0].Index.OK:
 			note(&undecided, at+": the stored byte is not decided ("+p.Pos(stores[0].Pos)+")")
-		case stores[0].Index.I != 0:
-			note(&bad, fmt.Sprintf("%s: the group is stored at dst[%d]", at, stores[0].Index.I))
+		case advances && stores[0].Index.I != 0:
+			note(&bad, fmt.Sprintf("%s: the group is stored at dst[%d] although the buffer is re-sliced after every store", at, stores[0].Index.I))
+		case !advances && stores[0].Index.I != start.I:
+			indexedByCounter = false
+			note(&bad, fmt.Sprintf("%s: the group is stored at dst[%d] with %d bytes already written and the buffer not re-sliced: later groups overwrite or skip positions", at, stores[0].Index.I, start.I))
 		case stores[0].Val.I&0xff != wantByte:
 			note(&bad, fmt.Sprintf("%s: emits 0x%02x, LEB128 says 0x%02x", at, stores[0].Val.I&0xff, wantByte))
 		}
@@ -490,6 +517,8 @@ func c19Encoder(c *Ctx, p *Prog, pk *packages.Package, e lebCodec) {
 			note(&bad, at+": the byte counter does not advance by one")
 		}
 	}
+	c.Check(advances || indexedByCounter, rRes, e.Fn, loc, "returns the counter of emitted bytes; the buffer position advances by one per emitted byte",
+		e.Fn+" neither re-slices the output buffer after each store (dst = dst[1:]) nor indexes it with the byte counter: later groups overwrite or skip positions")
 	if len(undecided) > 0 {
 		c.Undecided(rule, e.Fn, loc, strings.Join(undecided, "; "))
 		return
@@ -613,12 +642,38 @@ func c19Wrappers(c *Ctx, p *Prog, pk *packages.Package) {
 func c19ReaderBounds(c *Ctx, p *Prog, pk *packages.Package) {
 	const rule = "reader-bounds"
 	info := pk.TypesInfo
-	fd := p.MustFunc(rule, pk, "byteSliceNext.next")
+	// the slice-backed byte source: the method with a []byte receiver, one int parameter and results (byte, error)
+	var fd *ast.FuncDecl
+	for _, f := range pk.Syntax {
+		for _, d := range f.Decls {
+			m, ok := d.(*ast.FuncDecl)
+			if !ok || m.Recv == nil || m.Body == nil || len(m.Recv.List) != 1 {
+				continue
+			}
+			rt := info.TypeOf(m.Recv.List[0].Type)
+			if rt == nil {
+				continue
+			}
+			sl, ok := rt.Underlying().(*types.Slice)
+			if !ok {
+				continue
+			}
+			if b, ok := sl.Elem().Underlying().(*types.Basic); !ok || b.Kind() != types.Uint8 {
+				continue
+			}
+			sig, ok := info.Defs[m.Name].Type().(*types.Signature)
+			if !ok || sig.Params().Len() != 1 || sig.Results().Len() != 2 || !isErrorType(sig.Results().At(1).Type()) {
+				continue
+			}
+			fd = m
+		}
+	}
 	if fd == nil {
+		c.Undecided(rule, "anchor:slice-backed byte source", "", "no method with a []byte receiver and signature (int) (byte, error) in "+pk.PkgPath)
 		return
 	}
 	loc := p.Pos(fd.Pos())
-	if fd.Recv == nil || len(fd.Recv.List[0].Names) != 1 || len(fd.Type.Params.List[0].Names) != 1 {
+	if len(fd.Recv.List[0].Names) != 1 || len(fd.Type.Params.List[0].Names) != 1 {
 		c.Undecided(rule, "byteSliceNext.next", loc, "receiver or index parameter unnamed")
 		return
 	}
